@@ -685,7 +685,7 @@ func (s *Stage) cleanStrays(minAge time.Duration) {
 			compExists := err == nil
 			var comp *sts.Partial
 			if compExists {
-				if comp, err = readLocalCompanion(path, relPath); err != nil {
+				if comp, err = readLocalCompanion(compPath, relPath); err != nil {
 					s.logError(err.Error())
 				}
 			}
